@@ -39,7 +39,7 @@ def {NAME}({ARGS}) -> bool:
     pre: {PRE}
     post: _
     """
-    return H.program_violated({P}, {N}, [{STEPS}], [{DRAINS}], [{VALS}], uw, {OMAX}, {ALLOWC}, {EXC}) == 0
+    return H.program_violated({P}, {N}, [{STEPS}], [{DRAINS}], [{VALS}], uw, {OMAX}, {ALLOWC}, {EXC}, {ALLOWX}) == 0
 '''
 
 OTWIN = '''
@@ -49,7 +49,7 @@ def {NAME}({ARGS}) -> bool:
     post: _
     """
     # reachability twin: must be REFUTED (a valid program with a pool.call after an earlier task completed runs to the end)
-    return not H.program_reach({P}, {N}, [{STEPS}], [{DRAINS}], [{VALS}], uw, {OMAX}, {ALLOWC})
+    return not H.program_reach({P}, {N}, [{STEPS}], [{DRAINS}], [{VALS}], uw, {OMAX}, {ALLOWC}, {ALLOWX})
 '''
 
 
@@ -62,9 +62,10 @@ def _okw(c, twin):
     or -1 (twin: first step symbolic too).  dmax -1 / -2: one symbolic drain mode for the whole schedule (none / quiescent [/ one tick]);
     >= 0: one symbolic drain choice 0..dmax per step."""
     mode, holder, P, n, a0, _, fam, omax, dmax, umax = c
-    k = int(fam[1:].rstrip('c'))
-    allowc = fam.endswith('c')
-    end = 4 + 4 * n
+    k = int(fam[1:].rstrip('cx'))
+    allowc = 'c' in fam
+    allowx = 'x' in fam
+    end = 4 + 4 * n + (3 if allowx else 0)
     first = 0 if (a0 >= 0 and not twin) else -1
     a = [f'a{j}' for j in range(1 if first == 0 else 0, k)]
     v = [f'v{i}' for i in range(n)]
@@ -73,7 +74,7 @@ def _okw(c, twin):
     steps = ([str(a0)] if first == 0 else []) + a
     return dict(ARGS=', '.join(f'{x}: int' for x in a + d + v + ['uw']), PRE=' and '.join(pre), P=P, N=n,
                 STEPS=', '.join(steps), DRAINS=', '.join(['dm'] * k) if dmax < 0 else ', '.join(d), VALS=', '.join(v),
-                OMAX=omax, ALLOWC=allowc)
+                OMAX=omax, ALLOWC=allowc, ALLOWX=allowx)
 
 
 def _tag(c):
@@ -92,7 +93,7 @@ def twin_name(c):
 def argnames(c):
     mode, holder, P, n, lo, hi, fam, omax, dmax, umax = c
     if is_program(c):
-        k = int(fam[1:].rstrip('c'))
+        k = int(fam[1:].rstrip('cx'))
         return ([f'a{j}' for j in range(1, k)] + (['dm'] if dmax < 0 else [f'd{j}' for j in range(k)])
                 + [f'v{i}' for i in range(n)] + ['uw'])
     a = ['perm'] + [f'o{i}' for i in range(n)]
